@@ -953,12 +953,14 @@ class PE(object):
     if isinstance(op, ast.Pow):
       self._need_num(a, b)
       return self.py_pow(a, b)
-    if isinstance(op, ast.BitAnd) and isinstance(a, bool) and \
-        isinstance(b, bool):
-      return a and b
-    if isinstance(op, ast.BitOr) and isinstance(a, bool) and \
-        isinstance(b, bool):
-      return a or b
+    if isinstance(op, (ast.BitAnd, ast.BitOr, ast.BitXor)) and \
+        isinstance(a, (bool, int)) and isinstance(b, (bool, int)):
+      if isinstance(a, bool) and isinstance(b, bool):
+        return {ast.BitAnd: a and b, ast.BitOr: a or b,
+                ast.BitXor: a != b}[type(op)]
+      ia, ib = int(a), int(b)
+      return {ast.BitAnd: ia & ib, ast.BitOr: ia | ib,
+              ast.BitXor: ia ^ ib}[type(op)]
     self.err("python binary op %s on %r, %r" % (type(op).__name__, a, b))
 
   def _need_num(self, a, b):
@@ -1307,7 +1309,7 @@ BUILTINS = {
     "all", "round", "set", "super", "object", "ValueError", "TypeError",
     "AttributeError", "AssertionError", "SyntaxError", "Exception", "cast",
     "NotImplementedError", "KeyError", "reversed", "map", "id", "setattr",
-    "issubclass", "divmod",
+    "issubclass", "divmod", "UnboundLocalError", "IndexError",
 }
 
 
